@@ -159,6 +159,8 @@ let project id (reg, qs) =
   let out = List.concat (List.map (fun q ->
       match id, q with
       | "C01", L [A "m"; r; _; _] -> (match r with L [A "found"; i; _] -> [L [A "sel"; i]] | L (A h :: _) -> [L [A "sel"; A h]] | _ -> [])
+      | "C01", L [A "s"; _; A who; _; _; _; _] ->
+        [L [A "sel"; A (match int_of_string_opt who with Some _ -> who | None -> if who = "none" || who = "nf" then "nf" else who)]]
       | "C01", _ -> []
       | "C14", L [A "m"; _; _; k] -> [L [A "keys"; k]]
       | "C14", _ -> []
@@ -202,11 +204,12 @@ let c01_judge cs obs =
     let table = List.map snd rows and idx = List.map fst rows in
     if List.exists (fun r -> r.s_pat <> None && not (link_ok r.s_path)) table
     then "bad model-link-broken the string-level pattern compiler and the grammar-level one disagree on start/first/names" else
-    let mqs = List.filter (fun (k, _, _) -> k = "m") c.qs in
+    let mqs = List.filter (fun (k, _, _) -> k = "m" || k = "s") c.qs in
     let rec go mqs qs = match mqs, qs with
       | [], [] -> "ok"
-      | (_, m, p) :: mqs', q :: qs' ->
-        let m = List.map (fun ch -> let x = int_of_n ch in if x >= 97 && x <= 122 then n_of_int (x - 32) else ch) m in
+      | (k, m, p) :: mqs', q :: qs' ->
+        (* Router.Match upper-cases the method; a served request is matched with the method as sent *)
+        let m = if k = "s" then m else List.map (fun ch -> let x = int_of_n ch in if x >= 97 && x <= 122 then n_of_int (x - 32) else ch) m in
         (match format_path c.o.o_strict p with
          | Panic -> "bad format-panic"
          | Ok path ->
